@@ -112,6 +112,14 @@ func (w *World) call(what string, key *wallet.KeyPair, c types.Address, t types.
 	return w.submit(what, key, &nom.AccountBlock{BlockType: nom.BlockTypeUserSend, ToAddress: c, TokenStandard: t, Amount: amt, Data: data})
 }
 
+// boundary returns a boundary value of the unsigned 256-bit range (argument class "boundary integers").
+func (w *World) boundary() *big.Int {
+	p := func(e uint) *big.Int { return new(big.Int).Lsh(big.NewInt(1), e) }
+	vals := []*big.Int{big.NewInt(0), big.NewInt(1), p(63), new(big.Int).Sub(p(64), big.NewInt(1)), p(64),
+		new(big.Int).Sub(p(255), big.NewInt(1)), p(255), new(big.Int).Sub(p(256), big.NewInt(1))}
+	return vals[w.R.Intn(len(vals))]
+}
+
 func units(n int64) *big.Int { return new(big.Int).Mul(big.NewInt(n), big.NewInt(constants.Decimals)) }
 
 func (w *World) amount(max int64) *big.Int {
@@ -245,6 +253,13 @@ func (w *World) Step() {
 			name := fmt.Sprintf("tok%d", w.R.Intn(1000))
 			max := units(1000)
 			total := units(int64(w.R.Intn(500)))
+			if w.R.Intn(3) == 0 { // boundary supplies, mintable or not
+				max = w.boundary()
+				total = max
+				if w.R.Intn(2) == 0 {
+					total = w.boundary()
+				}
+			}
 			if b := w.call("token.Issue", u, types.TokenContract, znn, constants.TokenIssueAmount,
 				definition.ABIToken.PackMethodPanic(definition.IssueMethodName, name, "T"+fmt.Sprint(w.R.Intn(99)), "", total, max, uint8(8), true, true, w.R.Intn(2) == 0)); b != nil {
 				w.Tokens = append(w.Tokens, token{u, types.NewZenonTokenStandard(b.Hash.Bytes())})
@@ -257,6 +272,9 @@ func (w *World) Step() {
 					key = w.user()
 				}
 				amt := units(1 + w.R.Int63n(700)) // sometimes beyond the maximum supply
+				if w.R.Intn(4) == 0 {
+					amt = w.boundary()
+				}
 				w.call("token.Mint", key, types.TokenContract, types.ZeroTokenStandard, big.NewInt(0),
 					definition.ABIToken.PackMethodPanic(definition.MintMethodName, t.zts, amt, w.user().Address))
 			}
